@@ -517,6 +517,9 @@ func check(prop, tier string) int {
 		v := Violation{Prop: prop, Class: class, Pass: loc.Pass, Input: loc.Input, Cfg: loc.Cfg, Tier: tier,
 			Detail: fmt.Sprintf("worker process ended abnormally (%s) in %s\n%s", f.Kind, f.Stuck, tail(f.StderrTail, 1500))}
 		if prop != "C01" {
+			if blockedFatal[class] < 3 {
+				fmt.Printf("NOTE: blocked by a fatal end (%s) — C01's business: pass=%s input=%s cfg=%s\n", class, loc.Pass, clip(string(loc.Input), 200), loc.Cfg)
+			}
 			blockedFatal[class]++
 			continue
 		}
